@@ -30,8 +30,9 @@ MCNext == \/ Start
                 \* unions of one, three and four members (the three representations of the
                 \* small vector behind a union); the driver hands the members over through
                 \* an iterator that knows its length (b = 1) or one that does not (b = 2)
-                \/ \E a \in 1..2, it \in 1..2 : InternUnionSeq(<<a>>) /\ Emit([op |-> "union1", a |-> a, b |-> it])
+                \/ \E a \in 1..2, it \in {1} : InternUnionSeq(<<a>>) /\ Emit([op |-> "union1", a |-> a, b |-> it])
                 \/ \E a \in 1..2, it \in 1..2 : InternUnionSeq(<<a, 3 - a, a>>) /\ Emit([op |-> "union3", a |-> a, b |-> it])
-                \/ \E a \in 1..2, it \in 1..2 : InternUnionSeq(<<a, a, 3 - a, a>>) /\ Emit([op |-> "union4", a |-> a, b |-> it])
+                \/ \E a \in 1..2, it \in {2} : InternUnionSeq(<<a, a, 3 - a, a>>) /\ Emit([op |-> "union4", a |-> a, b |-> it])
+                \/ \E a \in 1..2, b \in 1..2 : InternUnionNested(a, b) /\ Emit([op |-> "union_nested", a |-> a, b |-> b])
 MCSpec == MCInit /\ [][MCNext]_<<vars, started>>
 =============================================================================
